@@ -10,7 +10,7 @@ from txdbus import interface, introspection, objects
 
 ACTIONS = {'Declare': ('iname', 'd', 'register'), 'ParseXml': ('ids', 'replace')}
 OBS = ['objs', 'known', 'result']
-NAMES = ('a', 'b')
+NAMES = ('a', 'Ping')        # (the second member is called like a member of an interface every object has)
 INAMES = ('t.A', 't.AB')
 BASE = 'MC_Introspect'
 NOM = {'p': False, 'ins': (), 'outs': ()}
@@ -187,6 +187,22 @@ class IntrospectDriver:
                 self.objs.append((r, False))
                 out.append(len(self.objs))
         self.result = tuple(out)
+        # a proxy built from the whole description (the standard interfaces txdbus adds included): a call to a member
+        # the exporter declared, made without naming an interface, is a call to that declaration
+        declaring = [x for x in res if not x.name.startswith('org.freedesktop.DBus') and 'Ping' in x.methods]
+        for r in (declaring if len(declaring) == 1 else []):        # (with several declarations the first in order decides)
+            if r.methods['Ping'].nargs in (0, -1):
+                continue
+            h = _Handler()
+            ro = objects.RemoteDBusObject(h, 'x.y', '/p', list(res))
+            try:
+                ro.callRemote('Ping', *range(r.methods['Ping'].nargs))
+                sent_to = h.conn.calls[-1][1].get('interface')
+            except (TypeError, AttributeError) as ex:
+                sent_to = 'refused (%s)' % type(ex).__name__
+            if sent_to not in [x.name for x in res if not x.name.startswith('org.freedesktop.DBus') and 'Ping' in x.methods]:
+                self.result = ('a call to the declared member Ping of %s goes to %s' % (r.name, sent_to),)
+            break
         self.kept.append((res, [id(r) for r in res], [r.name for r in res]))
 
     def project(self):
@@ -330,6 +346,20 @@ def run(tier, seed):
     core.validate_and_report(chk, BASE, OBS, ACTIONS, batch, trace_cfg(), ['KnownPointsToNamesake'], 'c15', {}, 'random',
                              nproc=8)
     chk.sample({'recorded': [a for a, s in batch[0]][:3]})
+    # 3b. "interfaces already known locally are reused": known is known, whether or not the application still holds the
+    # object it registered (the model's `known` does not depend on who else refers to a definition)
+    import gc
+    interface.DBusInterface('org.verif.Ephemeral', interface.Method('Kept', arguments='s'))
+    gc.collect()
+    other = type('E', (objects.DBusObject,), {'dbusInterfaces': [interface.DBusInterface(
+        'org.verif.Ephemeral', interface.Method('FromThePeer', arguments='i'), noRegister=True)]})('/e')
+    got = [r for r in introspection.getInterfacesFromXML(introspection.generateIntrospectionXML('/e', {'/e': other}), False)
+           if r.name == 'org.verif.Ephemeral']
+    chk.traces += 1
+    if len(got) != 1 or sorted(got[0].methods) != ['Kept']:
+        chk.violation('an interface registered earlier and no longer referred to by the application is not reused: parsed %r' % (
+            [sorted(r.methods) for r in got],), dict(kind='case', module='c15'))
+    interface.DBusInterface.knownInterfaces.pop('org.verif.Ephemeral', None)
     # 4. canary: a parsed property recorded with another access mode
     tr = None
     for cand in batch:
